@@ -54,6 +54,30 @@ def expected_outcome(c):
     return ('ok', (max(los), min(his)) if los else None)
 
 
+def own_g_check(ctx, c, io, scale):
+    """G/RT of the estimate against Σ count × the constituent's OWN get_GoRT (asked of the constituent itself, not recomputed
+    from its H/RT and S/R): the property names G/RT among the additive quantities"""
+    import warnings
+    tot = 0.0
+    for (k, n) in c.mapping:
+        corr = c.info.corr.get(str(k))
+        if corr is None:
+            return
+        try:
+            with warnings.catch_warnings(), L.quiet():
+                warnings.simplefilter('ignore')
+                v = float(corr.get_GoRT(c.T))
+        except Exception:
+            return
+        tot += float(n) * v
+    got = io['g'][0]
+    if got[0] != 'ok':
+        return
+    ctx.count('own_g_sums')
+    if not common.close(float(got[1]), tot, scale):
+        ctx.violation('G/RT of the estimate is not the count-weighted sum of the constituents\' own G/RT', c.input, tot, float(got[1]))
+
+
 def oracle(ctx, c, relational=False):
     info, impl = c.info, c.impl
     exp, detail = expected_outcome(c)
@@ -86,6 +110,7 @@ def oracle(ctx, c, relational=False):
         spec['g'] = ('ok', spec['h'][1] - spec['s'][1])
     scale = {p: L.abs_sum(c, p) for p in ('cp', 'h', 's')}
     scale['g'] = scale['h'] + scale['s']
+    own_g_check(ctx, c, io, scale['g'])
     got = {'cp': io['cp'], 'h': io['h'], 's': io['s'][0], 'g': io['g'][0]}
     for p in ('cp', 'h', 's', 'g'):
         sp, im = spec[p], got[p]
